@@ -71,7 +71,7 @@ func chanCap(c *chanObj) int {
 
 // waitUntil blocks the current goroutine until cond() holds.
 func waitUntil(fr *frame, what string, cond func() bool) {
-	if s := fr.i.sched; s != nil {
+	if s := fr.i.sched; s != nil && fr.i.inInit == 0 {
 		s.block(fr, what, cond)
 		return
 	}
@@ -83,12 +83,17 @@ func waitUntil(fr *frame, what string, cond func() bool) {
 func schedWake(fr *frame) {}
 
 func schedYield(fr *frame) {
-	if s := fr.i.sched; s != nil {
+	if s := fr.i.sched; s != nil && fr.i.inInit == 0 {
 		s.yield(fr, "yield")
 	}
 }
 
 func spawnGoroutine(fr *frame, instr *ssa.Go, fn value, args []value) {
+	if fr.i.inInit > 0 {
+		// package initialisers run lazily inside some path; a goroutine started
+		// there must not become part of that path's schedule
+		panic(pathEnd{stUnsupported, "go statement in a package initialiser"})
+	}
 	if s := fr.i.sched; s != nil {
 		s.spawn(fr, fn, args)
 		return
@@ -102,7 +107,7 @@ func chanSend(fr *frame, ch value, v value) {
 		waitUntil(fr, "send on nil channel", func() bool { return false })
 	}
 	v = copyVal(v)
-	if s := fr.i.sched; s != nil {
+	if s := fr.i.sched; s != nil && fr.i.inInit == 0 {
 		s.yield(fr, "chan send")
 	}
 	if c.closed {
@@ -149,7 +154,7 @@ func chanRecv(fr *frame, instr *ssa.UnOp, ch value) value {
 	if c == nil {
 		waitUntil(fr, "receive from nil channel", func() bool { return false })
 	}
-	if s := fr.i.sched; s != nil {
+	if s := fr.i.sched; s != nil && fr.i.inInit == 0 {
 		s.yield(fr, "chan recv")
 	}
 	c.recvWaiting++
@@ -204,7 +209,7 @@ func doSelect(fr *frame, instr *ssa.Select) value {
 		}
 		return r
 	}
-	if s := fr.i.sched; s != nil {
+	if s := fr.i.sched; s != nil && fr.i.inInit == 0 {
 		s.yield(fr, "select")
 	}
 	rd := ready()
@@ -277,6 +282,9 @@ func (p *Path) choose(fr *frame, n int) int {
 		}
 		p.pos++
 		p.taken = append(p.taken, d)
+		if int(d.V) >= n {
+			panic(pathEnd{stUnsupported, fmt.Sprintf("engine: replay desync (choice %d of %d) at %s pos=%d", d.V, n, fr.pos(), p.pos)})
+		}
 		return int(d.V)
 	}
 	for k := n - 1; k >= 1; k-- {
